@@ -81,6 +81,15 @@ CLAIMED = {
         note='Narrow and enumeration-driven: the decoder tables are dictionaries keyed by byte value, so the solver only enumerates the byte combinations (stated in the evidence). Outside: termination in general, text heuristics on long data, '
              '-C/-r sub-block directives vs sna2skool, large images, other code-map formats.',
         design='4 (C14)', technique='solver-driven enumeration of short windows through the real generators (bytes realised via z3 models); tiling assertions per path'),
+    'C04': dict(
+        text='(a) Conversion kernel: InstructionUtility.convert (base 10/16, lower/upper case) on 60 instruction and DEFB/DEFM/DEFS/DEFW templates whose numeric operands are symbolic numerals (decimal, $HEX, $hex spellings; index offsets, '
+             'relative jumps, arithmetic expressions, strings containing digits, $ and ;): the real assembler assembles original and converted text and z3 decides byte equality for every operand value. '
+             '(b) Pipeline: three skool templates (size-preserving @isub/@ssub/@rsub/@ofix/@bfix/@rfix replacements; insert-before/after, overwrite and remove with labelled targets; @if, +/- block directives, second @org, @equ, @keep, @nowarn) '
+             'with symbolic byte operands and word operands over an address window are run through the real SkoolParser + AsmWriter for every asm/fix mode and (base, case, -c) option set and through the real BinWriter; the emitted listing is assembled '
+             '(labels, ORG, EQU resolved by a small harness assembler driving skoolkit\'s Assembler) and z3 decides that it equals the skool2bin image byte for byte, and (size-preserving templates) that the parser snapshot read by #PEEK equals it too.',
+        note='Bound: the template corpus. Word operands that reach the label lookup (a dict keyed by address) are realised over a window of ~45 addresses. Outside: files whose instructions move while referring to unlabelled addresses '
+             '(skool2asm keeps the literal address, skool2bin relocates it: documented, warned about), @bytes, @defb/@defs/@defw data directives, @bank, @remote, macro expansion of #PEEK itself, image macros, asm_mode 0 of skool2bin.',
+        design='4 (C04)', technique=TECH + '; symbolic numerals through the real parser/writer/assembler; differential between the two tool chains'),
     'C18': dict(
         text='skool2asm only: the real SkoolParser + AsmWriter convert a corpus of 3 skool entries (long unbreakable words, multi-instruction comment groups, registers, paragraphs, end comments, operations wider than the instruction field) with a symbolic '
              'line width 40..200 (and comment-width-min 1..40; instruction-width 5..40 enumerated). Each path stands for all widths that wrap identically: the emitted words equal the source words in order, every instruction appears once, and z3 shows '
